@@ -24,6 +24,9 @@ Section TSafe.
   Hypothesis Hv0 : valid0 O = false.
   Variable own0 : omap.
   Variable k0 : nat.      (* initial tag = number of nodes put by the set-up *)
+  Variable NR : nat.      (* threads 0..NR-1 are client threads; NR..N-1 are idle place holders (cache slots of
+                             CachedFreeList) whose held list is not client ownership *)
+  Hypothesis HNR : (NR <= N)%nat.
 
   Notation InvTS := (InvTS N valid0).
 
@@ -35,7 +38,7 @@ Section TSafe.
   Definition InvTT (g : TG) (a : TAux) (tr : list (nat * ev)) : Prop :=
     ttag g = Z.of_nat k0 + ncas tr /\
     mon_run own0 tr = Some (town a) /\
-    (forall n t, town a n = Some t <-> In n (thl a t)) /\
+    (forall n t, town a n = Some t <-> (t < NR)%nat /\ In n (thl a t)) /\
     (forall t, opens t tr = if tis_idle (tph a t) then 0 else 1).
 
   Definition TInv (g : TG) (a : TAux) (tr : list (nat * ev)) : Prop :=
@@ -312,7 +315,7 @@ Section TSafe.
   (** ** client events *)
   Lemma InvTT_emit g a a' tr t e :
     InvTT g a tr -> is_head_cas e = false -> mon_ev (town a) t e = Some (town a') ->
-    (forall n t', town a' n = Some t' <-> In n (thl a' t')) ->
+    (forall n t', town a' n = Some t' <-> (t' < NR)%nat /\ In n (thl a' t')) ->
     (forall t', (if tis_idle (tph a t') then 0 else 1) + (if Nat.eqb t t' then ev_open e else 0)
                 = if tis_idle (tph a' t') then 0 else 1) ->
     InvTT g a' (tr ++ Conc.tag t [e]).
@@ -354,16 +357,17 @@ Section TSafe.
   Qed.
 
   Lemma rule_temit_ret_get t H n R (k : tprog R) Q :
+    (t < NR)%nat ->
     safe t k ((H ++ [n])%list, TIdle) Q -> safe t (Emit [EvCli "ret_get" (zn n)] k) (H, TPRet n) Q.
   Proof.
-    intros Ks. cbn [Conc.safe]. intros g a tr HI Hv. unfold tview in Hv. injection Hv as Hh Hp.
+    intros HtR Ks. cbn [Conc.safe]. intros g a tr HI Hv. unfold tview in Hv. injection Hv as Hh Hp.
     exists (tstep_aux a n (THeld t) (tlst a) t TIdle (thl a t ++ [n])%list (upd (town a) n (Some t))). split; [|split].
     - intros Hnw. destruct (HI (nowrap_prefix _ _ Hnw)) as [HS HT].
       assert (Ht : (t < N)%nat) by (eapply active_lt; eauto; congruence).
       pose proof (TS_ph HS t) as Hx. rewrite Hp in Hx. cbn in Hx. destruct Hx as [Hst Hnin].
       pose proof HT as (T0 & T1 & T2 & T3).
       assert (Hown : town a n = None).
-      { destruct (town a n) as [t'|] eqn:E; [|reflexivity]. apply T2 in E. pose proof (TS_held HS t' n E) as E'.
+      { destruct (town a n) as [t'|] eqn:E; [|reflexivity]. apply T2 in E. destruct E as [_ E]. pose proof (TS_held HS t' n E) as E'.
         rewrite Hst in E'. injection E' as <-. contradiction. }
       split.
       + apply (TInv_step N valid0 Hv0) with (g := g);
@@ -377,9 +381,9 @@ Section TSafe.
         * unfold zn. cbn. assert ((Z.of_nat n <? 0)%Z = false) as -> by (apply Z.ltb_ge; lia). rewrite Nat2Z.id, Hown. reflexivity.
         * intros m t'. cbn [town thl tstep_aux]. unfold upd.
           destruct (Nat.eqb_spec m n) as [->|Hm]; destruct (Nat.eqb_spec t' t) as [->|Ht'].
-          -- split; [intros _; apply in_or_app; right; left; reflexivity|reflexivity].
-          -- split; [congruence|]. intros Hin. apply (TS_held HS) in Hin. congruence.
-          -- rewrite T2, in_app_iff. cbn. split; [tauto|]. intros [E|[E|[]]]; [exact E|congruence].
+          -- split; [intros _; split; [exact HtR|apply in_or_app; right; left; reflexivity]|reflexivity].
+          -- split; [congruence|]. intros [_ Hin]. apply (TS_held HS) in Hin. congruence.
+          -- rewrite T2, in_app_iff. cbn. split; [tauto|]. intros [Hl [E|[E|[]]]]; [tauto|congruence].
           -- apply T2.
         * intros t'. cbn [tph tstep_aux]. unfold upd. destruct (Nat.eqb_spec t' t) as [E|Hne].
           -- subst t'. rewrite Nat.eqb_refl, Hp. reflexivity.
@@ -389,10 +393,10 @@ Section TSafe.
   Qed.
 
   Lemma rule_temit_inv_put t H i n R (k : tprog R) Q :
-    (t < N)%nat -> nth_error H i = Some n ->
+    (t < N)%nat -> (t < NR)%nat -> nth_error H i = Some n ->
     safe t k (remove_nth i H, TPPut n) Q -> safe t (Emit [EvCli "inv_put" (zn n)] k) (H, TIdle) Q.
   Proof.
-    intros Ht Hi Ks. cbn [Conc.safe]. intros g a tr HI Hv. unfold tview in Hv. injection Hv as Hh Hp.
+    intros Ht HtR Hi Ks. cbn [Conc.safe]. intros g a tr HI Hv. unfold tview in Hv. injection Hv as Hh Hp.
     rewrite <- Hh in Hi.
     exists (tstep_aux a n (THeld t) (tlst a) t (TPPut n) (remove_nth i (thl a t)) (upd (town a) n None)). split; [|split].
     - intros Hnw. destruct (HI (nowrap_prefix _ _ Hnw)) as [HS HT].
@@ -400,7 +404,7 @@ Section TSafe.
       pose proof (TS_held HS t n Hin) as Hst.
       destruct (remove_nth_spec (thl a t) i n Hi (TS_hnd HS t)) as (R1 & R2 & R3).
       pose proof HT as (T0 & T1 & T2 & T3).
-      assert (Hown : town a n = Some t) by (apply T2; exact Hin).
+      assert (Hown : town a n = Some t) by (apply T2; split; [exact HtR|exact Hin]).
       split.
       + apply (TInv_step N valid0 Hv0) with (g := g);
           [exact HS|exact Ht|rewrite Hp; left; reflexivity|right; reflexivity|left; symmetry; exact Hst|reflexivity|left; reflexivity
@@ -412,9 +416,9 @@ Section TSafe.
         * unfold zn. cbn. rewrite Nat2Z.id, Hown, Nat.eqb_refl. reflexivity.
         * intros m t'. cbn [town thl tstep_aux]. unfold upd.
           destruct (Nat.eqb_spec m n) as [->|Hm]; destruct (Nat.eqb_spec t' t) as [->|Ht'].
-          -- split; [discriminate|contradiction].
-          -- split; [discriminate|]. intros Hin'. apply (TS_held HS) in Hin'. congruence.
-          -- rewrite T2. symmetry. apply R3. exact Hm.
+          -- split; [discriminate|]. intros [_ Hc]. contradiction.
+          -- split; [discriminate|]. intros [_ Hin']. apply (TS_held HS) in Hin'. congruence.
+          -- rewrite T2. rewrite (R3 m Hm). tauto.
           -- apply T2.
         * intros t'. cbn [tph tstep_aux]. unfold upd. destruct (Nat.eqb_spec t' t) as [E|Hne].
           -- subst t'. rewrite Nat.eqb_refl, Hp. reflexivity.
@@ -459,18 +463,33 @@ Section TSafe.
   Lemma safe_tget fuel t H : safe t (tget fuel) (H, TBusy) (TQget H).
   Proof. unfold tget. apply rule_tld_head_get. intros hp ht. cbn [fst snd]. apply safe_tget_loop. Qed.
 
-  Lemma safe_trun_ops fuel t : (t < N)%nat -> forall os H, safe t (trun_ops fuel os H) (H, TIdle) (@Conc.QTrue _).
+  (** get() started from any phase without a claim (the second backing get() of CachedFreeList::get) *)
+  Lemma rule_tld_head_get' t H p R (k : TV -> tprog R) Q :
+    tclaim p = None -> p <> TIdle ->
+    (forall hp ht, safe t (k (hp, ht)) (H, TGHead hp ht) Q) ->
+    safe t (Act ta_ld_head k) (H, p) Q.
   Proof.
-    intros Ht. induction os as [|o r IH]; intros H; cbn [trun_ops]; [exact I|].
+    intros Hc Hni Hk. apply rule_tlocal with (p' := fun g => TGHead (thead g) (ttag g)) (n0 := O);
+      [local_f|left; exact Hc|intros; cbn; auto|intros g E; congruence|intros; destruct p; cbn; congruence|exact Hni| |].
+    - intros g a HS Hh Hp. split; [lia|reflexivity].
+    - intros g. apply Hk.
+  Qed.
+
+  Lemma safe_tget' fuel t H p : tclaim p = None -> p <> TIdle -> safe t (tget fuel) (H, p) (TQget H).
+  Proof. intros Hc Hni. unfold tget. apply rule_tld_head_get'; auto. intros hp ht. cbn [fst snd]. apply safe_tget_loop. Qed.
+
+  Lemma safe_trun_ops fuel t : (t < NR)%nat -> forall os H, safe t (trun_ops fuel os H) (H, TIdle) (@Conc.QTrue _).
+  Proof.
+    intros HtR. assert (Ht : (t < N)%nat) by lia. induction os as [|o r IH]; intros H; cbn [trun_ops]; [exact I|].
     destruct o as [|i].
     - apply rule_temit_plain with (p' := TBusy); auto. apply Conc.safe_bind.
       eapply Conc.safe_weaken; [|apply safe_tget].
       intros res l Hl. destruct res as [[|n]|]; cbn in Hl.
       + destruct Hl as [ht ->]. apply rule_temit_plain with (p' := TIdle); auto.
-      + subst l. apply rule_temit_ret_get. apply IH.
+      + subst l. apply rule_temit_ret_get; [exact HtR|]. apply IH.
       + apply rule_temit_oof.
     - destruct (nth_error H i) as [n|] eqn:Hi.
-      + eapply rule_temit_inv_put; [exact Ht|exact Hi|]. apply Conc.safe_bind.
+      + eapply rule_temit_inv_put; [exact Ht|exact HtR|exact Hi|]. apply Conc.safe_bind.
         eapply Conc.safe_weaken; [|apply safe_tput].
         intros ok l Hl. destruct ok.
         * rewrite (Hl eq_refl). apply rule_temit_plain with (p' := TIdle); auto.
@@ -478,6 +497,6 @@ Section TSafe.
       + apply rule_temit_plain with (p' := TIdle); auto.
   Qed.
 
-  Lemma safe_tthread fuel t os H : (t < N)%nat -> safe t (tthread_prog fuel os H) (H, TIdle) (@Conc.QTrue _).
+  Lemma safe_tthread fuel t os H : (t < NR)%nat -> safe t (tthread_prog fuel os H) (H, TIdle) (@Conc.QTrue _).
   Proof. intros Ht. unfold tthread_prog. apply rule_tbegin. intros _. apply safe_trun_ops. exact Ht. Qed.
 End TSafe.
